@@ -82,6 +82,9 @@ extern "C" void h_feat_iff()
     unsigned na = symCount(0, NFEAT), nb = symCount(1, NFEAT);
     symFeatures(fa); symFeatures(fb);
     setFeatures(A, fa, na); setFeatures(B, fb, nb);
+    // both entities carry the same nid (0..1) arbitrary identities: the feature part follows an arbitrary identity part
+    IdT ids[NID]; unsigned nid = symCount(2, 1); symIdentities(ids, nid);
+    setIdentities(A, ids, nid); setIdentities(B, ids, nid);
     QByteArray va = A->verificationString();
     QByteArray vb = B->verificationString();
     bool sameSet = featSubset(fa, na, fb, nb) && featSubset(fb, nb, fa, na);
@@ -157,8 +160,8 @@ extern "C" void h_form_ref()
     unsigned nid = symCount(0, NID), nf = symCount(1, NFEAT);
     symIdentities(ids, nid); symFeatures(fs);
     setIdentities(iq, ids, nid); setFeatures(iq, fs, nf);
-    bool hasFormType = vp_bool(); Txt formType = symTxt();
-    unsigned nfields = symCount(4, NFIELD); unsigned ftPos = vp_u32(); vp_assume(ftPos <= nfields);
+    bool hasFormType = symCount(5, 1) != 0; Txt formType = symTxt();
+    unsigned nfields = symCount(4, NFIELD); unsigned ftPos = symCount(6, NFIELD); vp_assume(ftPos <= nfields);
     symFields(fields, nfields);
     setForm(iq, hasFormType, formType, fields, nfields, ftPos);
 
